@@ -30,7 +30,7 @@ m = {
     "setup_cmd": "cd /verif && ./setup.sh",
     "hooks": {
         "guard": "cargo feature verif_hooks",
-        "enable": "harness depends on lsm-tree with features = [\"verif_hooks\"] (path dependency on /repo)",
+        "enable": "harness depends on lsm-tree with features = [\"verif_hooks\", \"lz4\"] (path dependency on /repo; lz4 is the crate's own optional compression feature, enabled so that compressed configurations are exercised)",
         "baseline_off_cmd": "cd /repo && cargo nextest run --workspace --no-fail-fast --offline --test-threads 8 || cargo test --workspace --no-fail-fast --offline",
         "source_commits": [l.strip() for l in open(os.path.join(ROOT, "hook_commits.txt"))] if os.path.exists(os.path.join(ROOT, "hook_commits.txt")) else [],
         "add_only": True,
